@@ -33,11 +33,21 @@ def _applicable(action, tmpl):
         return t["type"] == "markdown"
     if action in ("tag_front", "tag_back"):
         return bool(t.get("tags"))
+    if action in ("md_scrolled_true", "md_scrolled_auto"):
+        return bool(t.get("scrolled"))
+    if action == "md_del_collapsed":
+        return bool(t.get("collapsed"))
+    if action == "md_shift":
+        return bool(t.get("lol"))
+    if action in ("src8", "src9"):
+        return len(G.SRC.get(t.get("src"), [])) > 9
+    if action in ("out_ec",):
+        return t["type"] == "code" and bool(t.get("outputs")) and t["outputs"][-1].startswith("result")
     if action in ("rerun", "ec", "out_edit", "out_edit2", "out_clear", "out_add", "out_add2", "out_del",
-                  "out_ptr", "to_md"):
+                  "out_ptr", "to_md", "out_add_front", "out_del_last"):
         if t["type"] != "code":
             return False
-        if action in ("out_edit", "out_edit2", "out_del", "out_ptr") and not t.get("outputs"):
+        if action in ("out_edit", "out_edit2", "out_del", "out_ptr", "out_del_last") and not t.get("outputs"):
             return False
     if action == "md_collapsed":
         return t["type"] == "code"
@@ -174,7 +184,8 @@ def make_unrelated(ta, tb, ids=(0, 1), files=0, props=("C01",), known=(),
 
 
 ALL_TEMPLATES = ["codeA", "codeB", "codeA0", "codeErr", "codeDisp", "codeRes2", "codeJobj",
-                 "codeJlol", "codeJloo", "codeJsc", "codeS", "md", "mdAtt", "raw", "codeT"]
+                 "codeJlol", "codeJloo", "codeJsc", "codeS", "md", "mdAtt", "raw", "codeT",
+                 "codeL", "codeU", "codeEmp", "codeMime", "codeTr", "codeLol"]
 
 
 def shards(tier, props, known, files=None, lite=False):
